@@ -27,7 +27,7 @@ checks, na = [], []
 for p in props:
     pid = p["id"]
     c = mods.get(pid)
-    if c is None:
+    if c is None or not c.get("READY", False):
         na.append({"property_id": pid, "reason": na_reasons.get(pid, "check not built yet in this round (design in DESIGN.md section 4, %s); not claimed until its check exists and is quiet on the unchanged tree" % pid)})
         continue
     checks.append({
